@@ -93,6 +93,8 @@ class Gen:
             self.type_assert(m, getter, ind)
         if m.kind in ("scalar", "enum", "set"):
             self.w("%so.F(%s, %s);" % (pad, n, self.bits_expr(m, getter)))
+            if m.kind == "scalar" and m.presence == "optional" and self.null_flags:
+                self.w("%so.tok(%s.has_value() ? \"hv\" : \"null\");" % (pad, getter))
         elif m.kind == "array":
             a = self.fresh("a")
             self.w("%s{ auto %s = %s; o.A(%s, %s.data(), %s.size()); }" % (pad, a, getter, n, a, a))
@@ -114,6 +116,8 @@ class Gen:
                 else:
                     self.dump_member_ra(e, "%s.%s()" % (c, e.name), ind + 1)
             self.w("%s  o.end(); }" % pad)
+
+    null_flags = False
 
     def dump_level(self, L, v, ind, mode):
         """mode: ra | cur. v: variable naming the level view. In cur mode `c` is the cursor."""
@@ -451,6 +455,7 @@ class Gen:
             for mode in ("ra", "cur", "tag"):
                 w("static void dump_%s_%d(unsigned char* p, std::size_t n, rt::Out& o) {" % (mode, i))
                 w("    auto v0 = sbepp::make_const_view<%s>(p, n);" % view)
+                self.null_flags = (mode == "ra")
                 if mode == "cur":
                     w("    auto c = sbepp::init_cursor(v0);")
                 self.dump_level(L, "v0", 1, mode)
